@@ -8,7 +8,19 @@
 (* treasury of that data source; the running total may not exceed the      *)
 (* caller's fee limit in any denom.  The message is a transaction: if the  *)
 (* limit or the balance is insufficient at ANY source nothing is moved.    *)
+(* A payer may itself be the treasury of a requested data source: that fee *)
+(* is a transfer to itself - it still counts against the limit and the     *)
+(* payer must hold it at that moment, although its balance does not move.  *)
 (* Amounts are true integers; Denom is a small set.                        *)
+(*                                                                         *)
+(* Result signing (x/oracle/keeper/result.go -> bandtss                    *)
+(* CreateDirectSigningRequest): a request that names a TSS encoder asks,   *)
+(* when it is resolved at the end of a block, the signing group to sign    *)
+(* its result.  The requester pays the signing fee (fee_per_signer x       *)
+(* threshold, SigFee here) into the bandtss escrow out of what is LEFT of  *)
+(* its fee limit after the data-source fees: exactly once per request; if  *)
+(* the remaining limit or the balance does not cover it there is no        *)
+(* signing and nothing is charged (the result is still stored).            *)
 (***************************************************************************)
 EXTENDS Integers, Sequences, FiniteSets, TLC
 
@@ -17,23 +29,31 @@ CONSTANTS
     DS,         \* data-source ids, e.g. 1..4
     Fee,        \* DS -> [Denom -> Nat]     fee vector of each data source
     TreasuryOf, \* DS -> Treasury
-    Treasury,   \* set of treasury names
-    Payer,      \* set of payer names
+    Treasury,   \* set of treasury account names
+    Payer,      \* set of payer account names (may contain treasuries)
     MaxBal,     \* initial payer balances range over 0..MaxBal (per denom)
     AskSet,     \* ask counts tried
     MaxSrc,     \* raw-request lists have 1..MaxSrc entries
     MaxLimit,   \* fee limits range over 0..MaxLimit (per denom)
-    MaxReq      \* bound on accepted requests (MC only)
+    MaxReq,     \* bound on accepted requests (MC only)
+    SigFeeSet,  \* possible signing fees (fee_per_signer x threshold), paid in SigDenom
+    SigDenom,   \* the denom of the signing fee
+    EncSet      \* subset of BOOLEAN: whether requests may name a TSS encoder
+
+Acct == Payer \cup Treasury
 
 VARIABLES
-    bal,     \* Payer -> [Denom -> Nat]
-    tre,     \* Treasury -> [Denom -> Nat]   (received so far)
+    bal,     \* Acct -> [Denom -> Nat]   bank balances of payers and treasuries
     nreq,    \* number of accepted requests
     remain,  \* remaining fee limit stored in the last accepted request ([Denom -> Nat])
+    sigFee,  \* the signing fee of this history (environment)
+    open,    \* accepted requests that are not resolved yet: sequence of [p, remain, enc]
+    esc,     \* balance of the bandtss escrow account (SigDenom)
+    nsig,    \* number of signing requests created so far
     out,     \* "init" | "ok" | "rej"
     last     \* the input of the last step [p, ask, srcs, limit] (history; not part of the state identity)
 
-vars == <<bal, tre, nreq, remain, out, last>>
+vars == <<bal, nreq, remain, sigFee, open, esc, nsig, out, last>>
 
 Zero == [d \in Denom |-> 0]
 
@@ -42,70 +62,125 @@ SumFee(srcs, d) == IF srcs = <<>> THEN 0 ELSE Fee[Head(srcs)][d] + SumFee(Tail(s
 
 Cost(ask, srcs) == [d \in Denom |-> ask * SumFee(srcs, d)]
 
-\* what treasury k receives: ask * (sum of the fees of the listed sources that pay into k)
+\* what account k receives: ask * (sum of the fees of the listed sources that pay into k)
 RECURSIVE SumFeeTo(_, _, _)
 SumFeeTo(srcs, d, k) ==
     IF srcs = <<>> THEN 0
     ELSE (IF TreasuryOf[Head(srcs)] = k THEN Fee[Head(srcs)][d] ELSE 0) + SumFeeTo(Tail(srcs), d, k)
 
+\* the transfers are made one source after the other: the payer must hold each amount when its turn comes; a
+\* transfer to the payer itself leaves the running balance as it is
+RECURSIVE PayOK(_, _, _, _)
+PayOK(srcs, ask, p, b) ==
+    IF srcs = <<>> THEN TRUE
+    ELSE LET a == [d \in Denom |-> ask * Fee[Head(srcs)][d]] IN
+         /\ \A d \in Denom : a[d] <= b[d]
+         /\ PayOK(Tail(srcs), ask, p, IF TreasuryOf[Head(srcs)] = p THEN b ELSE [d \in Denom |-> b[d] - a[d]])
+
 Init ==
-    /\ bal \in [Payer -> [Denom -> 0..MaxBal]]
-    /\ tre = [k \in Treasury |-> Zero]
+    /\ bal \in {b \in [Acct -> [Denom -> 0..MaxBal]] : \A a \in Acct \ Payer : b[a] = Zero}
     /\ nreq = 0
     /\ remain = Zero
+    /\ sigFee \in SigFeeSet /\ open = <<>> /\ esc = 0 /\ nsig = 0
     /\ out = "init"
-    /\ last = [p |-> CHOOSE p \in Payer : TRUE, ask |-> 0, srcs |-> <<>>, limit |-> Zero]
+    /\ last = [p |-> CHOOSE p \in Payer : TRUE, ask |-> 0, srcs |-> <<>>, limit |-> Zero, enc |-> FALSE]
 
 Known(srcs) == \A i \in 1..Len(srcs) : srcs[i] \in DS      \* an unknown data source id rejects the request
 
 Affordable(p, ask, srcs, limit) ==
-    Known(srcs) /\ \A d \in Denom : Cost(ask, srcs)[d] <= limit[d] /\ Cost(ask, srcs)[d] <= bal[p][d]
+    /\ Known(srcs)
+    /\ \A d \in Denom : Cost(ask, srcs)[d] <= limit[d]
+    /\ PayOK(srcs, ask, p, bal[p])
 
-Request(p, ask, srcs, limit) ==
-    /\ last' = [p |-> p, ask |-> ask, srcs |-> srcs, limit |-> limit]
+Request(p, ask, srcs, limit, enc) ==
+    /\ last' = [p |-> p, ask |-> ask, srcs |-> srcs, limit |-> limit, enc |-> enc]
+    /\ UNCHANGED <<sigFee, esc, nsig>>
     /\ IF Affordable(p, ask, srcs, limit)
-       THEN /\ bal' = [bal EXCEPT ![p] = [d \in Denom |-> bal[p][d] - Cost(ask, srcs)[d]]]
-            /\ tre' = [k \in Treasury |-> [d \in Denom |-> tre[k][d] + ask * SumFeeTo(srcs, d, k)]]
+       THEN /\ bal' = [a \in Acct |-> [d \in Denom |->
+                          bal[a][d] - (IF a = p THEN Cost(ask, srcs)[d] ELSE 0) + ask * SumFeeTo(srcs, d, a)]]
             /\ nreq' = nreq + 1
             /\ remain' = [d \in Denom |-> limit[d] - Cost(ask, srcs)[d]]
+            /\ open' = Append(open, [p |-> p, remain |-> [d \in Denom |-> limit[d] - Cost(ask, srcs)[d]], enc |-> enc])
             /\ out' = "ok"
        ELSE /\ out' = "rej"
-            /\ UNCHANGED <<bal, tre, nreq, remain>>
+            /\ UNCHANGED <<bal, nreq, remain, open>>
+
+\* the end of the block: every open request is resolved, in order; st = [bal, esc, nsig]
+PaysSig(r, b) == r.enc /\ r.remain[SigDenom] >= sigFee /\ b[r.p][SigDenom] >= sigFee
+RECURSIVE ResolveAll(_, _)
+ResolveAll(rs, st) ==
+    IF rs = <<>> THEN st
+    ELSE LET r == Head(rs) IN
+         ResolveAll(Tail(rs),
+            IF PaysSig(r, st.bal)
+            THEN [bal  |-> [st.bal EXCEPT ![r.p][SigDenom] = @ - sigFee],
+                  esc  |-> st.esc + sigFee,
+                  nsig |-> st.nsig + 1]
+            ELSE st)
+
+Resolve ==
+    /\ LET st == ResolveAll(open, [bal |-> bal, esc |-> esc, nsig |-> nsig])
+       IN bal' = st.bal /\ esc' = st.esc /\ nsig' = st.nsig
+    /\ open' = <<>>
+    /\ out' = "ok"
+    /\ last' = [last EXCEPT !.ask = 0]
+    /\ UNCHANGED <<nreq, remain, sigFee>>
 
 SrcLists == UNION {[1..n -> DS] : n \in 1..MaxSrc}
 
-Next == \E p \in Payer, ask \in AskSet, srcs \in SrcLists, limit \in [Denom -> 0..MaxLimit] :
-            nreq < MaxReq /\ Request(p, ask, srcs, limit)
+Next == \/ \E p \in Payer, ask \in AskSet, srcs \in SrcLists, limit \in [Denom -> 0..MaxLimit], enc \in EncSet :
+               nreq < MaxReq /\ Request(p, ask, srcs, limit, enc)
+        \/ open # <<>> /\ Resolve
 
 Spec == Init /\ [][Next]_vars
 
 -----------------------------------------------------------------------------
-NonNegative == /\ \A p \in Payer, d \in Denom : bal[p][d] >= 0
-               /\ \A k \in Treasury, d \in Denom : tre[k][d] >= 0
+NonNegative == /\ \A a \in Acct, d \in Denom : bal[a][d] >= 0
                /\ \A d \in Denom : remain[d] >= 0
+               /\ esc >= 0 /\ \A i \in 1..Len(open) : \A d \in Denom : open[i].remain[d] >= 0
 
 \* C13 (data requests), stated on the input of the step independently of the action's definition:
 \* accepted => the payer pays exactly ask * (sum of the requested sources' fees), each treasury receives exactly
-\* its sources' share, nobody else's balance moves, and the cost is within the limit;
-\* rejected => no balance moves, and the limit or the balance really was insufficient.
-ExactA ==
+\* its sources' share (the payer's own share comes back to it), nobody else's balance moves, the cost is within the
+\* limit and the payer held, in every denom, at least the largest single amount it had to send;
+\* rejected => no balance moves, and the limit or the balance really was insufficient (had every transfer gone to
+\* somebody else, the balance would be insufficient exactly when it is below the cost).
+IsRequestStep == open' # <<>> \/ out' = "rej"
+ExactA == IsRequestStep =>
     LET i == last'
         cost == IF Known(i.srcs) THEN Cost(i.ask, i.srcs) ELSE Zero
+        self == IF Known(i.srcs) THEN [d \in Denom |-> i.ask * SumFeeTo(i.srcs, d, i.p)] ELSE Zero
     IN IF out' = "ok"
        THEN /\ Known(i.srcs)
-            /\ \A d \in Denom : /\ bal'[i.p][d] = bal[i.p][d] - cost[d]
+            /\ \A d \in Denom : /\ bal'[i.p][d] = bal[i.p][d] - cost[d] + self[d]
                                  /\ cost[d] <= i.limit[d]
                                  /\ remain'[d] = i.limit[d] - cost[d]
-                                 /\ \A k \in Treasury : tre'[k][d] = tre[k][d] + i.ask * SumFeeTo(i.srcs, d, k)
-            /\ \A q \in Payer \ {i.p} : bal'[q] = bal[q]
-       ELSE /\ UNCHANGED <<bal, tre, nreq, remain>>
+                                 /\ cost[d] - self[d] <= bal[i.p][d]
+                                 /\ \A k \in Acct \ {i.p} : bal'[k][d] = bal[k][d] + i.ask * SumFeeTo(i.srcs, d, k)
+                                 /\ \A j \in 1..Len(i.srcs) : i.ask * Fee[i.srcs[j]][d] <= bal[i.p][d]
+       ELSE /\ UNCHANGED <<bal, nreq, remain, open>>
             /\ (~Known(i.srcs) \/ \E d \in Denom : cost[d] > i.limit[d] \/ cost[d] > bal[i.p][d])
 Exact == [][ExactA]_vars
 
-\* conservation per denom, stated with a fold over the (small, fixed) sets
+\* conservation per denom, stated with a fold over the (small, fixed) set of accounts
 RECURSIVE SumOver(_, _)
 SumOver(f, S) == IF S = {} THEN 0 ELSE LET x == CHOOSE x \in S : TRUE IN f[x] + SumOver(f, S \ {x})
-Total(d) == SumOver([p \in Payer |-> bal[p][d]], Payer) + SumOver([k \in Treasury |-> tre[k][d]], Treasury)
+Total(d) == SumOver([a \in Acct |-> bal[a][d]], Acct) + (IF d = SigDenom THEN esc ELSE 0)
 ConservedA == \A d \in Denom : Total(d)' = Total(d)
 Conserved == [][ConservedA]_vars
+
+\* C13 (result signing), stated on the step: at the end of a block every open request with a TSS encoder is charged the
+\* signing fee at most once and only out of what its fee limit has left; only the signing denom moves, everything a
+\* payer loses is in escrow, and the number of new signings is the number of requests that paid (or, with a zero fee,
+\* that named an encoder)
+CountSeq(rs, P(_)) == Len(SelectSeq(rs, P))
+SigningA == (open # <<>> /\ open' = <<>>) =>
+    LET may(p) == CountSeq(open, LAMBDA r : r.p = p /\ r.enc /\ r.remain[SigDenom] >= sigFee)
+        enc    == CountSeq(open, LAMBDA r : r.enc)
+    IN /\ \A a \in Acct, d \in Denom \ {SigDenom} : bal'[a][d] = bal[a][d]
+       /\ \A a \in Acct : /\ bal'[a][SigDenom] <= bal[a][SigDenom]
+                           /\ bal[a][SigDenom] - bal'[a][SigDenom] <= sigFee * (IF a \in Payer THEN may(a) ELSE 0)
+       /\ nsig' - nsig <= enc
+       /\ esc' - esc = sigFee * (nsig' - nsig)
+Signing == [][SigningA]_vars
 =============================================================================
